@@ -7,6 +7,8 @@ use std::{
 fn main() -> Result<(), Box<dyn std::error::Error>> {
     // Single colon should be replaced with double colon once crate MSRV hits 1.77
     println!("cargo:rerun-if-changed=modules/units/currencies.nbt");
+    // Verification hook: `cfg(kani)` guards the proof harnesses included at the end of src/number.rs
+    println!("cargo:rustc-check-cfg=cfg(kani)");
 
     let currencies_file = BufReader::new(fs::File::open("modules/units/currencies.nbt")?);
 
